@@ -228,7 +228,7 @@ def main():
         prop._tier = args.tier
         extra.update(prop.evidence_extra(stats))
         rp = extra.get('real_pool_cross_check')
-        if rp and (rp.get('error') or rp.get('equal') != rp.get('calls')):
+        if rp and (rp.get('error') or rp.get('equal') != rp.get('calls')) and exit_code == 0:
             harness_error(f'SimPool and the real multiprocessing.Pool disagree (model validation): {rp}')
     warn = [k for k in getattr(prop, 'expected_probes', []) if stats['counters'].get(k, 0) == 0]
     if warn:
